@@ -3,7 +3,9 @@
 //   when they do not suffice); T slow-hash keys with buckets that keep no hash bits (every migration recomputes the hash)
 // case line:   <kind> <keycat F|S|T> <dist> <logStart> <S|M> | <op> <op> ... [| <annotation, ignored here>]
 //   op:  i<k>[a<n>|f<n>]  Insert key k (armed: the n-th memory-manager allocation / n-th hash call of this op throws)
-//        r<k> Remove(key)   q<k> Find   v<n>[a<n>|f<n>] Reserve(n)   x<0|1> Clear(shrink)   t  traversal   c  GetCount
+//        e<k> Extract(Find(k)) into a held ExtractedItem   j[arms] Insert(held ExtractedItem)   p<m>_<r> Remove(filter k%m==r)
+//        m move out and back   y move everything away, continue bucket-less
+//        r<k> Remove(key)   q<k> Find   v<n>[a<n>|f<n>] Reserve(n)   x<0|1> Clear(shrink)   b<n> n plain insertions of keys 7000.. (observed once)   t  traversal   c  GetCount
 // mode "sched" (argv[1]): print the observed static facts + failure schedule of every op (input of the Coq model),
 //   then "#" statistics, then "#" oracle verdict (std::set twin + kit protocol/leak summary).
 // default mode: one token per op  res/count/capacity/ngens/shape/find/trav  (digests; C11_VERBOSE=1 prints shapes)
@@ -53,6 +55,11 @@ template<typename Key, typename Tr> struct SetAd
 	static bool insert(Cont& c, int64_t k) { return c.Insert(MkKey<Key>::make(k)).inserted; }
 	static bool find(Cont& c, int64_t k) { Key key = MkKey<Key>::make(k); return !!c.Find(key); }
 	static bool remove(Cont& c, int64_t k) { Key key = MkKey<Key>::make(k); return c.Remove(key); }
+	typedef typename Cont::ExtractedItem Ext;
+	static Ext* extract(Cont& c, int64_t k) { Key key = MkKey<Key>::make(k); auto pos = c.Find(key); if (!pos) return nullptr; return new Ext(c.Extract(pos)); }
+	static bool insert_ext(Cont& c, Ext& e) { return c.Insert(std::move(e)).inserted; }
+	static int64_t ext_key(const Ext& e) { return kit::value_of(e.GetItem()); }
+	static size_t remove_if(Cont& c, int64_t m, int64_t r) { return c.Remove([m, r] (const Key& x) { return kit::value_of(x) % m == r; }); }
 	// checked traversal: the iterator is advanced at most count+1 times and is dereferenced only if it points to an item
 	// that the container really holds (addresses collected through private access), so a broken iterator yields a
 	// wrong/marked sequence (compared with the model) instead of a wild read
@@ -76,6 +83,11 @@ template<typename Key, typename Tr> struct MapAd
 	static bool insert(Cont& c, int64_t k) { return c.Insert(MkKey<Key>::make(k), k * 3 + 1).inserted; }
 	static bool find(Cont& c, int64_t k) { Key key = MkKey<Key>::make(k); auto p = c.Find(key); return !!p && p->value == k * 3 + 1; }
 	static bool remove(Cont& c, int64_t k) { Key key = MkKey<Key>::make(k); return c.Remove(key); }
+	typedef typename Cont::ExtractedPair Ext;
+	static Ext* extract(Cont& c, int64_t k) { Key key = MkKey<Key>::make(k); auto pos = c.Find(key); if (!pos) return nullptr; return new Ext(c.Extract(pos)); }
+	static bool insert_ext(Cont& c, Ext& e) { return c.Insert(std::move(e)).inserted; }
+	static int64_t ext_key(const Ext& e) { int64_t k = kit::value_of(e.GetKey()); return (e.GetValue() == k * 3 + 1) ? k : -99; }
+	static size_t remove_if(Cont& c, int64_t m, int64_t r) { return c.Remove([m, r] (const Key& x, const int64_t&) { return kit::value_of(x) % m == r; }); }
 	static void traverse(Cont& c, std::vector<int64_t>& out, bool& bad, const std::set<const void*>& valid)
 	{
 		size_t n = 0; auto it = c.GetBegin();
@@ -135,6 +147,7 @@ template<typename Ad, typename Tr> static void run_case(int dist, size_t logStar
 		Cont c{Tr(dist, logStart), kit::MM(1)};
 		HS& hs = Ad::hs(c);
 		std::set<int64_t> twin; std::vector<int64_t> known; std::set<int64_t> knownSet;
+		std::unique_ptr<typename Ad::Ext> ext; int64_t heldKey = -1;
 		if (sched)
 		{
 			typename HS::Bucket fresh;
@@ -146,24 +159,28 @@ template<typename Ad, typename Tr> static void run_case(int dist, size_t logStar
 			char kind = op[0];
 			long arg = 0, armA = -1, armF = -1; size_t p = 1;
 			while (p < op.size() && isdigit(op[p])) arg = arg * 10 + (op[p++] - '0');
+			long arg2 = 0; if (p < op.size() && op[p] == '_') { ++p; while (p < op.size() && isdigit(op[p])) arg2 = arg2 * 10 + (op[p++] - '0'); }
 			while (p < op.size())
 			{	// one or both of a<n> (allocation) and f<n> (hash call)
 				char w = op[p++]; long n = 0;
 				while (p < op.size() && isdigit(op[p])) n = n * 10 + (op[p++] - '0');
 				if (w == 'a') armA = n; else armF = n;
 			}
-			if ((kind == 'i' || kind == 'r' || kind == 'q') && !knownSet.count(arg)) { knownSet.insert(arg); known.push_back(arg); }
+			if ((kind == 'i' || kind == 'r' || kind == 'q' || kind == 'e') && !knownSet.count(arg)) { knownSet.insert(arg); known.push_back(arg); }
 			std::string res, ann = "-";
-			if (kind == 'i' || kind == 'v')
+			bool jheld = kind == 'j' && ext && !ext->IsEmpty();
+			if (kind == 'j' && !jheld) res = "N";
+			if (jheld) arg = heldKey;
+			if (kind == 'i' || kind == 'v' || jheld)
 			{
 				Obs before = observe<Ad>(c, false);
 				size_t countBefore = hs.GetCount();
-				bool grow = (kind == 'i') ? (hs.GetCount() >= hs.GetCapacity()) : (size_t(arg) > hs.GetCapacity());
+				bool grow = (kind != 'v') ? (hs.GetCount() >= hs.GetCapacity()) : (size_t(arg) > hs.GetCapacity());
 				bool present = twin.count(arg) != 0;
 				W().arm(armA, -1, armF);
 				try
 				{
-					if (kind == 'i') { bool ins = Ad::insert(c, arg); res = ins ? "I" : "A";
+					if (kind != 'v') { bool ins = jheld ? Ad::insert_ext(c, *ext) : Ad::insert(c, arg); res = ins ? "I" : "A";
 						if (ins == present) oracle.push_back("Insert(" + std::to_string(arg) + ") returned inserted=" + std::to_string(ins) + " but twin says present=" + std::to_string(present));
 						if (ins) twin.insert(arg); }
 					else { c.Reserve(size_t(arg)); res = "V"; }
@@ -192,7 +209,7 @@ template<typename Ad, typename Tr> static void run_case(int dist, size_t logStar
 					}
 				}
 				if (r) { ++refused; if (res == "I") ++fb; }
-				if (r && kind == 'i' && before.head != nullptr && !present)
+				if (r && kind != 'v' && before.head != nullptr && !present)
 				{	// the property itself: a refused growth must fall back to the existing table ...
 					if (res != "I" && res != "U")
 						oracle.push_back("growth refused at " + op + ": insertion did not fall back to the existing table (result " + res + ")");
@@ -215,6 +232,36 @@ template<typename Ad, typename Tr> static void run_case(int dist, size_t logStar
 						oracle.push_back("failed op " + op + " (" + res + ") changed the container");
 				}
 				ann = std::to_string(h) + "." + std::to_string(af) + "." + std::to_string(r) + "." + std::to_string(m);
+				if (jheld)
+				{	// Insert(ExtractedItem&&): on success the extracted item is consumed, otherwise it still owns the element
+					if (res == "I") { if (!ext->IsEmpty()) oracle.push_back("Insert(ExtractedItem) succeeded but the extracted item is not empty"); ext.reset(); }
+					else if (ext->IsEmpty() || Ad::ext_key(*ext) != heldKey) oracle.push_back("Insert(ExtractedItem) failed (" + res + ") and the extracted item lost its element");
+					res = "J" + res;
+				}
+			}
+			else if (kind == 'j') { }
+			else if (kind == 'e')
+			{	// Extract(Find(key)): pvExtract -> pvRemove in whatever generation holds the item
+				if (ext) ext.reset();
+				ext.reset(Ad::extract(c, arg)); heldKey = arg;
+				bool present = twin.erase(arg) != 0;
+				res = ext ? "E1" : "E0";
+				if ((ext != nullptr) != present) oracle.push_back("Extract(" + std::to_string(arg) + ") found=" + std::to_string(ext != nullptr) + " twin " + std::to_string(present));
+				if (ext && (ext->IsEmpty() || Ad::ext_key(*ext) != arg)) oracle.push_back("Extract(" + std::to_string(arg) + ") returned a wrong/empty item");
+			}
+			else if (kind == 'p')
+			{	// Remove(filter): the iterator loop with removal, across generations; filter(k) = (k % arg == arg2)
+				size_t expect = 0; for (int64_t k : twin) if (k % arg == arg2) ++expect;
+				size_t removed = Ad::remove_if(c, arg, arg2);
+				for (auto it = twin.begin(); it != twin.end(); ) { if (*it % arg == arg2) it = twin.erase(it); else ++it; }
+				res = "P" + std::to_string(removed);
+				if (removed != expect) oracle.push_back("Remove(filter) removed " + std::to_string(removed) + " items, expected " + std::to_string(expect));
+			}
+			else if (kind == 'm') { Cont tmp(std::move(c)); c = std::move(tmp); res = "M"; }       // move out and back (BucketParams travel along)
+			else if (kind == 'y')
+			{	// the whole content is moved away and destroyed; c continues as a brand-new bucket-less container
+				{ Cont other(std::move(c)); Cont fresh{Tr(dist, logStart), kit::MM(1)}; c = std::move(fresh); }
+				twin.clear(); res = "Y";
 			}
 			else if (kind == 'r')
 			{
@@ -227,6 +274,16 @@ template<typename Ad, typename Tr> static void run_case(int dist, size_t logStar
 				bool f = Ad::find(c, arg); res = f ? "F1" : "F0";
 			}
 			else if (kind == 'x') { c.Clear(arg != 0); twin.clear(); res = "X"; }
+			else if (kind == 'b')
+			{	// bulk: <arg> failure-free insertions of the keys 7000.., observed only afterwards (long probe sequences)
+				for (long j = 0; j < arg; ++j)
+				{
+					int64_t k = 7000 + j;
+					if (!knownSet.count(k)) { knownSet.insert(k); known.push_back(k); }
+					try { if (Ad::insert(c, k)) twin.insert(k); } catch (const std::exception&) { oracle.push_back("bulk insertion of " + std::to_string(k) + " threw"); }
+				}
+				res = "L";
+			}
 			else if (kind == 't') res = "T";
 			else if (kind == 'c') res = "C";
 			else res = "?";
